@@ -824,7 +824,19 @@ def check_same_instance(ctx, rng):
     validations in flight at once; the anchor buffer is the caller's and may be reused after construction."""
     for hi in range(ctx.n(24, 600)):
         depth = rng.randint(1, 3)
-        H = Hierarchy(rng, depth, 'cc%02x' % rng.getrandbits(8))
+        small_versions = hi % 3 == 1
+        if small_versions:
+            # certificates with SMALL version numbers (made by a tool that counts versions 5, 6, 7 ... - the library itself uses
+            # millisecond timestamps): issued while the clock the library reads says 5 ms
+            import time as _t
+            real_time = _t.time
+            _t.time = lambda: 0.005 + 0.001 * (hi % 4)
+            ctx.event('hierarchy-with-small-version-numbers')
+        try:
+            H = Hierarchy(rng, depth, 'cc%02x' % rng.getrandbits(8))
+        finally:
+            if small_versions:
+                _t.time = real_time
         served = {tuple(n): w_ for n, w_ in zip(H.cert_names[1:], H.cert_wires[1:])}
         leaf = H.keys[depth]
         real = H.cert_names[depth]
@@ -832,6 +844,10 @@ def check_same_instance(ctx, rng):
         # signed with the real private key, but the key locator names another certificate of that key (other issuer / version)
         # which was never issued and cannot be retrieved: no chain packet -> named certificate -> anchor exists
         ghost = real[:-2] + [C(b'other-ca'), rc.comp(0x36, b'\x09')]
+        if small_versions and len(real[-1]) == 3:
+            # ... or the SAME certificate name with its version number written in eight octets instead of one: other octets, hence
+            # another name - under which nothing was ever issued
+            ghost = real[:-1] + [rc.comp(0x36, bytes(7) + bytes(real[-1][-1:]))]
         bad_locator = H.data(rng, b'ghost%d' % hi, signer=leaf.signer(ghost))
         forged = flip_sig(H.data(rng, b'forged%d' % hi))
         # more signers below the last but one level (cold cache: every one needs its own certificate fetch)
@@ -949,7 +965,7 @@ def run(ctx):
     if ctx.shard == 0:
         check_long_run(ctx, rng)
         ctx.need_event('long-lived-validator-with-hundreds-of-signers')
-    need = ['chain-valid-by-a-small-margin-under-a-non-utc-local-zone', 'validation-given-up-while-waiting-for-a-certificate', 'valid-chain-over-a-slow-network', 'verdict-accept', 'verdict-reject', 'history-run', 'anchor-ok', 'anchor-wrong-name', 'same-instance-history', 'other-namespace-chain-named-outside-the-anchor-identity',
+    need = ['hierarchy-with-small-version-numbers', 'chain-valid-by-a-small-margin-under-a-non-utc-local-zone', 'validation-given-up-while-waiting-for-a-certificate', 'valid-chain-over-a-slow-network', 'verdict-accept', 'verdict-reject', 'history-run', 'anchor-ok', 'anchor-wrong-name', 'same-instance-history', 'other-namespace-chain-named-outside-the-anchor-identity',
             'other-namespace-packet-signed-by-look-alike-certificate-key'] + ['deviation-' + d for d in set(DEVIATIONS)]
     for k in need:
         ctx.need_event(k)
